@@ -44,8 +44,9 @@ Print Assumptions C03_restore_d3_refuted.
    schedule - any length, any number of signals at any positions, any outcome of
    every start-up step and control cycle, any driver verdicts (D22 hypothesis per
    event) - the process never panics, and if it terminated then every controller
-   whose regulation began ended through restorePwmEnabled with its fan safe, or
-   with the last-resort write failed.  Oracle hypotheses (SPEC): oklog/run waits
+   whose regulation began OR whose fan was touched at all (initialisation sequence,
+   PWM-map sweep) ended through restorePwmEnabled with its fan safe, or with the
+   last-resort write failed.  Oracle hypotheses (SPEC): oklog/run waits
    for all actors before Run returns; os.Exit follows; a signal is delivered into
    the one-element channel buffer or dropped. *)
 Theorem C03_process :
@@ -54,7 +55,7 @@ Theorem C03_process :
     let s := exec repaired (init fans nmons) sched in
     (forall site, st s <> Crashed site) /\
     (terminated s ->
-     forall c, In c (ctrls s) -> c_started c = true ->
+     forall c, In c (ctrls s) -> c_started c = true \/ c_touched c = true ->
        exists p r, c_restore c = Some (p, r) /\ c_dev c = r_dev r /\
                    (safe (sup c) (c_orig c) (c_dev c) \/ last_resort_write_failed p r)).
 Proof. exact process_safe. Qed.
@@ -83,3 +84,11 @@ Theorem C03_process_d4_refuted :
   st s = Crashed 4 /\ map c_dev (ctrls s) = [mkDev 1 40; mkDev 2 90].
 Proof. exact process_d4_refuted. Qed.
 Print Assumptions C03_process_d4_refuted.
+
+(* D23 as found: an error return after a completed initialisation sequence left the swept fan in manual mode *)
+Theorem C03_process_d23_refuted :
+  let s := exec d23_only (init one_fan 0) sched_attach_fails in
+  st s = Exited 1 /\ map c_dev (ctrls s) = [mkDev 1 200] /\ map c_touched (ctrls s) = [true]
+  /\ map c_restore (ctrls s) = [None].
+Proof. exact process_d23_refuted. Qed.
+Print Assumptions C03_process_d23_refuted.
